@@ -11,6 +11,9 @@
 (*   Delete name, ok, names, lens, kinds                (observed holder after the call) *)
 (*   List   ok, list, names, lens, kinds                (holder before the call)         *)
 (*   Condition name, sp                                 (an initial condition in the block) *)
+(*   Block  vars                                        (ParseString of a block on the   *)
+(*          solver object; vars: its variables when the driver generated it, else [] and   *)
+(*          the Solve event names them in vs)                                              *)
 (*   Horizon place, h                                   (the user states the horizon)   *)
 (*   Trace  place ("inside" / "outside"), step          (solver.TraceStep = step)        *)
 (*   Steady                                             (initial steady state requested) *)
@@ -114,6 +117,9 @@ TraceNext ==
        \/ /\ e.ev = "Condition"
           /\ Condition(e.name, e.sp)
           /\ UNCHANGED verdict
+       \/ /\ e.ev = "Block"
+          /\ Block(Range(e.vars))
+          /\ UNCHANGED verdict
        \/ /\ e.ev = "Trace"
           /\ SetTrace(e.place)
           /\ UNCHANGED verdict
@@ -137,7 +143,7 @@ TraceNext ==
        \/ /\ e.ev = "End"
           /\ PrintT(<< "VERDICT", e.tid, verdict.kind \o ":" \o verdict.clause >>)
           /\ phase' = "build" /\ holder' = EmptyHolder /\ solved' = NotSolved
-          /\ table' = NoTable /\ stated' = Unstated /\ conds' = {} /\ opts' = NoOpts /\ hist' = << >>
+          /\ table' = NoTable /\ stated' = Unstated /\ conds' = {} /\ opts' = NoOpts /\ pending' = NoPending /\ hist' = << >>
           /\ verdict' = Ok
 
 TraceSpec == TraceInit /\ [][TraceNext]_tvars
